@@ -13,7 +13,14 @@ var engines = []engine{
 		Harness:  []string{"speaker", "internal/layer2", "internal/k8s/controllers"},
 		StubTest: []string{"speaker"},
 	},
+	{
+		Name: "gnative", TestPkg: "internal/bgp/native", TestName: "TestVerifGnative", SimPkgs: gnativePkgs, Rules: "r1,r2,r3,r4,r5", Subst: "harness/native_subst.json",
+		Harness:  []string{"internal/bgp/native"},
+		StubTest: []string{"internal/bgp/native"},
+	},
 }
+
+var gnativePkgs = []string{"internal/bgp/native"}
 
 var kspkPkgs = []string{"speaker", "internal/layer2", "internal/config", "internal/k8s/controllers", "internal/k8s", "internal/k8s/epslices", "internal/k8s/nodes", "internal/bgp", "internal/bgp/community"}
 
@@ -74,7 +81,29 @@ func spkProp(id string) propDef {
 		Batches: []batch{{Engine: "kspk", Variant: "", Runs: 12000, RunsT: 200000, WallS: 170, WallST: 1500}}}
 }
 
+var gnativeComponents = map[string]string{
+	"native.sessionManager.NewSession, session.run/connect/sendUpdates/sendKeepalives/consumeBGP/Set/Close/abort, backoff": "real goroutines, one released at a time by the simulator (sync -> simsync, go -> simrt.Go, select -> simrt.Select, time.Sleep -> simrt.Sleep)",
+	"native message codec (sendOpen/readOpen/sendUpdate/sendWithdraw/sendKeepalive)":                                   "real",
+	"TCP connection, dialMD5":                                       "simulated (simnet: ordered bytes, fragmentation, bounded buffer, deadlines on the fake clock, reset/close)",
+	"BGP peer":                                                      "scripted task decoding every byte with the independent bgpwire decoder",
+	"clock / timers":                                                "testing/synctest fake clock",
+}
+
+var gnativeAssume = []string{
+	"goroutine interleaving is explored at the granularity of park points (lock acquisition, condition wait, connection read/write, goroutine start, wake-up after a native block); code between two park points runs atomically",
+	"the peer never sends KEEPALIVEs of its own (MetalLB's native session does not enforce the receive hold timer)",
+}
+
+const gnativeRule = "Each run draws session parameters (ASNs around the 2/4-byte boundary, iBGP/eBGP, peer capabilities, hold times, router id), a sequence of 1-8 Set calls (0-4 prefixes of any length 0..32, local preferences, 0..63 communities, duplicates, empty sets) with drawn pauses, an optional Close, and per connection a peer behaviour (wrong ASN, delayed/garbled OPEN, NOTIFICATION, drop after k messages, stall, refused or timed-out dial); the scheduler draws every interleaving of the session's goroutines, the peer and the workload."
+
 func init() {
+	for _, id := range []string{"C16", "C17"} {
+		bs := []batch{{Engine: "gnative", Variant: "", Runs: 6000, RunsT: 100000, WallS: 170, WallST: 1500}}
+		if id == "C16" {
+			bs = append(bs, batch{Engine: "gnative", Variant: "openfuzz", Runs: 20000, RunsT: 300000, WallS: 100, WallST: 600, Note: "the OPEN reader as a stream consumer: generated and mutated OPEN messages, fragmented delivery, trailing KEEPALIVE"})
+		}
+		props = append(props, propDef{ID: id, Level: "exploration", Rule: gnativeRule, Assumptions: gnativeAssume, Components: gnativeComponents, Batches: bs})
+	}
 	for _, id := range []string{"C04", "C05", "C09", "C10", "C12", "C18"} {
 		props = append(props, spkProp(id))
 	}
@@ -85,4 +114,5 @@ var expectedProbes = map[string][]string{}
 var selftestVariants = map[string][]string{
 	"kctl": {"", "faults=on"},
 	"kspk": {""},
+	"gnative": {"", "openfuzz"},
 }
